@@ -45,6 +45,22 @@ unsafe fn tdefl_stream(tr: &mut Tr, data: &[u8], flags: u32, callback: bool, r: 
         return;
     }
     let mut collected: Vec<u8> = Vec::new();
+    // an earlier life of the same compressor object in the other output mode (callback / caller
+    // buffers), abandoned mid-stream: tdefl_init must leave nothing of it behind
+    let mut junk: Vec<u8> = Vec::new();
+    if data.len() % 3 == 1 {
+        let pre = data.len().min(40);
+        if callback {
+            tdefl_init(d, None, std::ptr::null_mut(), (flags ^ 0x1000) as c_int);
+            let mut isz = pre;
+            let mut osz = 64usize;
+            let mut ob = vec![0u8; 64];
+            tdefl_compress(d, data.as_ptr() as *const c_void, &mut isz, ob.as_mut_ptr() as *mut c_void, &mut osz, 2);
+        } else {
+            tdefl_init(d, Some(collect_cb), &mut junk as *mut Vec<u8> as *mut c_void, (flags ^ 0x1000) as c_int);
+            tdefl_compress_buffer(d, data.as_ptr() as *const c_void, pre, 2);
+        }
+    }
     let rc = if callback {
         tdefl_init(d, Some(collect_cb), &mut collected as *mut Vec<u8> as *mut c_void, flags as c_int)
     } else {
